@@ -7,6 +7,7 @@
 import LW.Driver.Ops
 import LW.Spec.Mac
 import LW.Spec.Frame
+import LW.Spec.Layout
 import LW.Spec.Crypto
 import LW.Spec.Addr
 import LW.Spec.BandChecks
@@ -363,12 +364,36 @@ def verdicts (st : DState) (op : String) (args : List String) (goRes : String) :
       | none => []
       | some f =>
         match res with
-        | none => if Spec.frameValid f then [("C01", "encoder-refuses-spec-valid-frame")] else []
+        | none => (if Spec.frameValid f then [("C01", "encoder-refuses-spec-valid-frame")] else []) ++
+                  (if (Spec.frameBytes f).isSome && Spec.frameValid f then [("C06", "encoder-refuses-frame-the-layout-defines")] else [])
         | some out =>
-          let (_, back) := splitBar out
-          if !Spec.shapeOK f then [] else
-          if back == ["ERR"] then [("C01", "decoder-refuses-own-encoding")]
-          else if " ".intercalate back == fmtFrame (Spec.wire f) then [] else [("C01", "roundtrip-differs")]
+          let (enc, back) := splitBar out
+          (match Spec.frameBytes f with
+           | some sb => if enc == [hx sb] then [] else [("C06", "frame-bytes-differ-from-layout-spec")]
+           | none => []) ++
+          (if !Spec.shapeOK f then [] else
+           if back == ["ERR"] then [("C01", "decoder-refuses-own-encoding")]
+           else if " ".intercalate back == fmtFrame (Spec.wire f) then [] else [("C01", "roundtrip-differs")])
+    | "phyenc", toks =>
+      -- C06, frame level: the bytes are those the layout tables (LW.Spec.Layout) prescribe
+      match parseArgs toks frame with
+      | none => []
+      | some f =>
+        match Spec.frameBytes f, res with
+        | some sb, some out => if out == [hx sb] then [] else [("C06", "frame-bytes-differ-from-layout-spec")]
+        | some _, none => if Spec.frameValid f then [("C06", "encoder-refuses-frame-the-layout-defines")] else []
+        | none, _ => []
+    | "phydec", [h] =>
+      -- C06, frame level: the decoded field values are the fields the layout tables read out of the input (reserved MHDR bits zero)
+      match unhx h, res with
+      | some bs, some out =>
+        if (bs.getD 0 0) &&& 0x1c#8 != 0#8 then [] else
+        (match parseArgs out frame with
+         | some f => (match Spec.frameBytes f with
+           | some sb => if sb == bs then [] else [("C06", "decoded-fields-are-not-the-layout-fields-of-the-input")]
+           | none => [("C06", "decoded-frame-has-no-layout")])
+         | none => [])
+      | _, _ => []
     | "phytextrt", toks =>
       match parseArgs toks frame with
       | none => []
